@@ -54,7 +54,7 @@ fn main() {
             "race" => "C09",
             _ => props[0],
         };
-        if loc.starts_with("/repo/") {
+        if vmon::refm::in_repository(&loc) {
             rep.violation(
                 prop,
                 "panic-on-the-calling-thread",
